@@ -280,6 +280,8 @@ class ScriptedApp:
             do_sr()
             data = b"".join(chunks)
             f = SeekableFile(data, self, key) if kind == "file" else UnseekableFile(data, self, key)
+            if sc.get("file_offset"):
+                f.read(sc["file_offset"])  # the application hands over a file that is not at position 0
             rec["file"] = f
             rec["returned"] = True
             self._finish(rec)
